@@ -266,6 +266,7 @@ class Generated:
         self.fn_blocks = set()   # names of blocks that are extracted real functions
         self.dropped = []        # attribute/visibility text dropped
         self.bare_closures = {}  # block name -> number of closures without a contract in the emitted text
+        self.block_text = {}     # block name -> emitted text (to see which contract-free stand-ins it calls)
 
 
 def render(template_text, flags=(), canary=False):
@@ -283,6 +284,7 @@ def render(template_text, flags=(), canary=False):
             g.blocks.append((start, cur_line[0], block[0], block[1]))
             if '__canary_' not in block[0]:
                 g.bare_closures[block[0]] = g.bare_closures.get(block[0], 0) + count_bare_closures(s)
+                g.block_text[block[0]] = g.block_text.get(block[0], '') + s
 
     skip_depth = 0
     while i < len(lines):
@@ -426,11 +428,12 @@ def render(template_text, flags=(), canary=False):
             text = _render_fn(g, args, rws, subs, hsubs, sections)
             serves = args.get('serves', '').split(',') if args.get('serves') else []
             emit(text + '\n', block=(args.get('rename') or args['name'], serves))
-            g.fn_blocks.add(args.get('rename') or args['name'])
+            if not args.get('stub'):
+                g.fn_blocks.add(args.get('rename') or args['name'])
             # canaries: a renamed copy of the same real body whose only postcondition is
             # a deliberately false clause; it MUST fail (vacuity / observation guard).
             # Callers keep calling the original, so a canary never poisons another proof.
-            if canary and args.get('canary', 'auto') != 'off':
+            if canary and args.get('canary', 'auto') != 'off' and not args.get('stub'):
                 # automatic vacuity canary: `ensures false` on a copy of the real body
                 # (fails unless the precondition is contradictory or the body is not
                 # actually being verified); explicit //@canary clauses are added to it
@@ -717,6 +720,16 @@ def _render_fn(g, args, rws, subs, hsubs, sections):
         g.dropped.append({'fn': fn.name, 'dropped': fn.dropped_prefix})
     header, body = fn.header, fn.body
     fname = args.get('rename') or args['name']
+    if args.get('stub'):
+        # `stub=1`: only the REAL HEADER is taken (so that a changed signature still type-checks at
+        # the call sites under contract); the body is not verified here (external_body) and the
+        # contract that follows is ASSUMED for it. Parameters the contract does not mention are
+        # unconstrained.
+        body = '{ unimplemented!() }'
+        rws, subs = [], []
+        sections = [sec for sec in sections if sec[0] == 'contract']
+        args = dict(args, prefix=((args.get('prefix', '') + ' ') if args.get('prefix') else '') + '#[verifier::external_body]')
+        g.rewrites.append({'fn': fname, 'rule': 'header only (stub=1): body not verified in this unit, contract assumed', 'n': 1})
     # comments always dropped
     header, _ = rewrite.r12_strip_comments(header)
     body, _ = rewrite.r12_strip_comments(body)
